@@ -139,3 +139,65 @@ pub fn gen_c12(rng: &mut Rng, d: &mut Dist) -> Vec<String> {
     }
     out
 }
+
+pub fn payload(rng: &mut Rng, d: &mut Dist) -> Option<Vec<u8>> {
+    match rng.below(12) {
+        0 => {
+            bump(d, "payload-null");
+            None
+        }
+        1 => {
+            bump(d, "payload-empty");
+            Some(vec![])
+        }
+        2 => {
+            bump(d, "payload-multi-KiB");
+            let n = 1024 + rng.below(6000) as usize;
+            Some(rng.bytes(n))
+        }
+        3 => {
+            bump(d, "payload-repetitive");
+            let n = 1 + rng.below(3000) as usize;
+            let b = rng.next() as u8;
+            Some(vec![b; n])
+        }
+        _ => {
+            bump(d, "payload-small");
+            let n = 1 + rng.below(40) as usize;
+            Some(rng.bytes(n))
+        }
+    }
+}
+
+pub fn opt_tok(b: &Option<Vec<u8>>) -> String {
+    match b {
+        None => "~".into(),
+        Some(b) => hex(b),
+    }
+}
+
+/// C03: `produce_messages` with explicit partitions, every payload shape, every codec, 1-3 topics x partitions.
+pub fn gen_c03(rng: &mut Rng, d: &mut Dist) -> Vec<String> {
+    let cl = Cluster::random(rng, 4, false);
+    let mut out = cl.setup_lines();
+    out.push(format!("OP client_new {}", cl.bootstrap()));
+    out.push("OP c load_metadata_all".into());
+    let ncalls = 1 + rng.below(3);
+    for _ in 0..ncalls {
+        let c = rng.below(3);
+        bump(d, &format!("codec-{}", c));
+        out.push(format!("OP c set compression {}", c));
+        let acks = *rng.pick(&[1i64, 1, -1, 0]);
+        let nrec = 1 + rng.below(10);
+        let mut line = format!("OP c produce {} 1 0", acks);
+        for _ in 0..nrec {
+            let t = rng.pick(&cl.topics);
+            let p = rng.below(t.leaders.len() as u64);
+            let k = payload(rng, d);
+            let v = payload(rng, d);
+            line.push_str(&format!(" {} {} {} {}", h(&t.name), p, opt_tok(&k), opt_tok(&v)));
+        }
+        out.push(line);
+    }
+    out
+}
